@@ -51,13 +51,13 @@ func (r *Rng) Intn(n int) int {
 	return int(r.U64() % uint64(n))
 }
 func (r *Rng) Range(lo, hi int) int { return lo + r.Intn(hi-lo+1) } // inclusive
-func (r *Rng) Bool() bool            { return r.U64()&1 == 1 }
+func (r *Rng) Bool() bool           { return r.U64()&1 == 1 }
 func (r *Rng) Chance(num, den int) bool {
 	return r.Intn(den) < num
 }
-func (r *Rng) Byte() byte   { return byte(r.U64()) }
-func (r *Rng) U16() uint16  { return uint16(r.U64()) }
-func (r *Rng) U32() uint32  { return uint32(r.U64()) }
+func (r *Rng) Byte() byte  { return byte(r.U64()) }
+func (r *Rng) U16() uint16 { return uint16(r.U64()) }
+func (r *Rng) U32() uint32 { return uint32(r.U64()) }
 func (r *Rng) Bytes(n int) []byte {
 	b := make([]byte, n)
 	for i := 0; i < n; {
@@ -70,7 +70,8 @@ func (r *Rng) Bytes(n int) []byte {
 	}
 	return b
 }
-func (r *Rng) Pick(xs ...int) int { return xs[r.Intn(len(xs))] }
+func (r *Rng) Pick(xs ...int) int        { return xs[r.Intn(len(xs))] }
+func (r *Rng) PickS(xs ...string) string { return xs[r.Intn(len(xs))] }
 
 // Read makes *Rng an io.Reader (deterministic random source).
 func (r *Rng) Read(p []byte) (int, error) {
@@ -329,9 +330,28 @@ func (c *Ctx) walWrite(fam string, i int) {
 	}
 }
 
+// GlobalCount is for observations made by shared helpers that have no Case at hand (e.g. which kind of message
+// object was handed to the library); merged into the counters of the child's result.
+var (
+	globalMu     sync.Mutex
+	globalCounts = map[string]int64{}
+)
+
+func GlobalCount(key string) {
+	globalMu.Lock()
+	globalCounts[key]++
+	globalMu.Unlock()
+}
+
 func (c *Ctx) Result() *Result {
 	c.mu.Lock()
 	defer c.mu.Unlock()
+	globalMu.Lock()
+	for k, v := range globalCounts {
+		c.counters[k] += v
+		delete(globalCounts, k)
+	}
+	globalMu.Unlock()
 	r := &Result{Property: c.Prop, Tier: c.Tier, Seed: c.Seed, Shard: c.Shard, NShards: c.NShards,
 		Evals: c.evals, Samples: c.samples, Counters: c.counters, Violations: c.viol, Notes: c.notes,
 		Incon: c.incon, Families: c.fams, Info: c.info}
